@@ -77,6 +77,17 @@ Record entry := Entry { e_name : text; e_tag : N; e_url : text }.
 Definition entry_of (root_names : list text) (pf : option text) (o : obj) : entry :=
   Entry (full_name pf (o_name o)) (o_tag o) (url_of root_names pf (o_name o) (o_tag o)).
 
+(* all listed objects in document order (an object, then its members): the entries the inventory must consist of *)
+Fixpoint entries_obj (root_names : list text) (pf : option text) (parent_listed : bool) (o : obj) : list entry :=
+  match o with
+  | Obj name tag hidden contents =>
+    if negb hidden && parent_listed
+    then entry_of root_names pf o :: over (entries_obj root_names (Some (full_name pf name)) true) contents
+    else []
+  end.
+Definition entries (root_names : list text) (subjects : list obj) : list entry :=
+  over (entries_obj root_names None true) subjects.
+
 (* ------------------------------------------------------------------ comment lines in front of the payload *)
 (* `p` is what is left of `data` once the leading lines that start with '#' (each ended by a newline) are dropped *)
 Inductive stripped : list N -> list N -> Prop :=
